@@ -150,7 +150,7 @@ def forced_suite(ctx, vh, queue):
         ctx.sample({"suite": "forced/" + queue, "case": rows[len(rows) // 2]})
     # oracle and agree of one shard are evaluated by the same coqc process (start-up dominates)
     t0 = time.time()
-    bad_oracle, bad_agree = eval_both(ctx, "c19_" + queue, hdr, terms, shard=max(150, (len(terms) + 3) // 4))
+    bad_oracle, bad_agree = eval_both(ctx, "c19_" + queue, hdr, terms, shard=max(150, min(600, (len(terms) + 3) // 4)))
     ctx.note("%s queue: %d schedules evaluated in Coq in %.1f s" % (queue, len(terms), time.time() - t0))
     ctx.obligation("correspondence:forced/" + queue, "correspondence", not bad_agree,
                    "%d schedules, %d disagree with the model" % (len(rows), len(bad_agree)))
